@@ -133,29 +133,9 @@ def rule_negateall_default(ctx: Ctx, rule: str) -> None:
 
 
 def rule_evaluation_shape(ctx: Ctx, rule: str) -> None:
-    ctx.text(rule, 'evaluation shape: in _Match.match and _match_real `matched` starts False, the include loop only sets it True, '
-                   'the exclude loop runs only if matched and only sets it False; the function returns `matched`')
-    repo = ctx.repo
-    for qn in ('_Match.match', '_Match._match_real'):
-        fi = repo.func('_wcmatch', qn)
-        q = fq(fi)
-        _include_exclude_shape(ctx, rule, '_wcmatch', fi, 'self.include', True)
-        _include_exclude_shape(ctx, rule, '_wcmatch', fi, 'self.exclude', False)
-        exl = [l for l in walk_no_nested(fi.node) if isinstance(l, ast.For) and norm_src(l.iter) == 'self.exclude']
-        ok = bool(exl) and all(q.guarded(l, 'matched', 'T') for l in exl)
-        ctx.ob(rule, f'_wcmatch:{qn}/exclude-only-if-matched', ok, repo.loc('_wcmatch', exl[0] if exl else fi.node), 'exclude loop under `if matched`', str(ok),
-               witness="exclusions alone match nothing")
-        init = [s for s in walk_no_nested(fi.node) if isinstance(s, ast.Assign) and norm_src(s) == 'matched = False']
-        inc = [l for l in walk_no_nested(fi.node) if isinstance(l, ast.For) and norm_src(l.iter) == 'self.include']
-        oki = bool(inc) and any(q.cfg.dominates(q.node_of(s), q.node_of(inc[0])) for s in init)
-        ctx.ob(rule, f'_wcmatch:{qn}/starts-false', oki, repo.loc('_wcmatch', fi.node), '`matched = False` dominates the include loop', str(oki))
-        last = fi.node.body[-1]
-        ctx.ob(rule, f'_wcmatch:{qn}/returns-matched', isinstance(last, ast.Return) and norm_src(last.value) == 'matched', repo.loc('_wcmatch', last), 'return matched',
-               norm_src(last)[:60])
-    wm = repo.func('_wcmatch', 'WcRegexp.match')
-    g = [n for n in wm.node.body if isinstance(n, ast.If) and norm_src(n.test) == 'not filename']
-    ctx.ob(rule, '_wcmatch:WcRegexp.match/empty-name', bool(g) and any(isinstance(s, ast.Return) and norm_src(s.value) == 'False' for s in g[0].body),
-           repo.loc('_wcmatch', wm.node), 'if not filename: return False', str(bool(g)), witness="fnmatch('', '*') is False")
+    from . import matchrules
+    matchrules.rule_evaluation_shape(ctx, rule)
+    matchrules.rule_match_excluded(ctx, rule, which={'table'})
 
 
 def rule_expand_order(ctx: Ctx, rule: str) -> None:
@@ -535,10 +515,16 @@ def rule_escape_covers(ctx: Ctx, rule: str) -> None:
     need = set(repo.const(WP, 'MAGIC_BRACE')[0]) | set(repo.const(WP, 'MAGIC_SPLIT')[0])
     ctx.ob(rule, f'{WP}:RE_WIN_DRIVE_MAGIC/covers-splitting-magic', need <= DM, repo.loc(WP, repo.const_line(WP, 'RE_WIN_DRIVE_MAGIC')), f'{sorted(need)} ⊆ class',
            str(sorted(DM)), witness="glob.escape('//server/sh{a,b}re/x', unix=False) under BRACE")
-    # both escape regexes share the lone-backslash alternative
-    tail = r'(?<!\\)(?:(?:[\\]{2})*)\\(?!\\)'
-    okt = rme[0].pattern.endswith(tail + ')') and dm[0].pattern.endswith(tail + ')')
-    ctx.ob(rule, f'{WP}:escape/lone-backslash-alternative', okt, site, 'both regexes end with the lone-backslash alternative', str(okt))
+    # both escape regexes share the lone-backslash alternative (compared as parsed regexes, whatever the spelling)
+    ref_tail = rx.strip_caps(rx.parse(r'(?<!\\)(?:\\\\)*\\(?!\\)', 0).node)
+
+    def has_tail(c: Any) -> bool:
+        node = rx.strip_caps(rx.parse(c.pattern if isinstance(c.pattern, str) else c.pattern.decode('latin-1'), 0).node)
+        alts = node[1] if node[0] == 'alt' else (node,)
+        return ref_tail in alts
+    okt = all(has_tail(c) for c in (rme[0], rme[1], dm[0], dm[1]))
+    ctx.ob(rule, f'{WP}:escape/lone-backslash-alternative', okt, site, 'all four escape regexes have the alternative `(?<!\\)(?:\\\\)*\\(?!\\)` (a backslash that escapes nothing)', str(okt),
+           witness=r"escape('a\\') must double the trailing lone backslash, and only that one")
     g = [n for n in walk_no_nested(es.node) if isinstance(n, ast.If) and 'pathname' in norm_src(n.test)]
     okg = bool(g) and equivalent_tests(g[0].test, "pathname and (unix is None and util.platform() == 'windows' or unix is False)")
     ctx.ob(rule, f'{WP}:escape/drive-guard', okg, repo.loc(WP, es.node), "pathname and ((unix is None and host is windows) or unix is False)", norm_src(g[0].test) if g else 'none',
